@@ -30,8 +30,13 @@ def run_one(m, do_tests):
             res["status"] = "PATCH-FAILED: %s" % ex
             return res
         env = dict(os.environ, VERIF_REPO=wt)
-        p = subprocess.run([os.path.join(HERE, "check"), m["property"], "--tier", "quick"], env=env,
-                           capture_output=True, text=True, timeout=1800)
+        try:
+            p = subprocess.run([os.path.join(HERE, "check"), m["property"], "--tier", "quick"], env=env,
+                               capture_output=True, text=True, timeout=900)
+        except subprocess.TimeoutExpired:
+            res["status"] = "TIMEOUT(900s)"
+            res["kinds"] = []
+            return res
         kinds = re.findall(r"^  kind=(\S+)", p.stdout, re.M)
         res["exit"] = p.returncode
         res["kinds"] = sorted(set(kinds))[:6]
